@@ -46,6 +46,9 @@ fn run_many(args: &Args, rep: &mut Report, engine: &str, n: u64, jobs: usize, f:
             for (k, v) in &c.counters {
                 cov.add(k, *v);
             }
+            if !c.violations.is_empty() {
+                cov.bump("violating_cases");
+            }
             if let Some(v) = c.violations.first() {
                 if finds.len() < 4 {
                     finds.push(Finding { v: v.clone(), sig: format!("{}/{}/{}{}", prop, eng, v.oracle, c.sig_tail), replay: c.desc.clone() });
